@@ -787,13 +787,27 @@ Proof.
   intros H. injection H as <-. eauto.
 Qed.
 
+Definition names_ok (cs : cols) : Prop := Forall (fun ps => Forall (fun c => name_ok c = true) (fst ps)) cs.
+
+Lemma names_ok_prefix c cs : name_ok c = true -> names_ok cs -> names_ok (prefix_cols c cs).
+Proof.
+  intros Hc H. unfold names_ok, prefix_cols. apply Forall_forall. intros ps Hin.
+  apply in_map_iff in Hin as [x [<- Hx]]. cbn [fst]. constructor; [exact Hc|].
+  unfold names_ok in H. rewrite Forall_forall in H. apply H, Hx.
+Qed.
+
+Lemma names_ok_concat gs : Forall names_ok gs -> names_ok (concat gs).
+Proof.
+  induction 1 as [|g r Hg Hr IH]; [constructor|]. cbn [concat]. apply Forall_app. split; assumption.
+Qed.
+
 Section Induction.
   Variable tgt : list str -> bool.
 
   Definition child_ok (t : ty) : Prop :=
     forall v comps cs,
       dom tgt t v comps = true -> unparse_rec tgt noexc t v comps = Ok cs -> cs <> [] ->
-      puts t cs ONone = Ok (enc t v).
+      puts t cs ONone = Ok (enc t v) /\ names_ok cs.
 
   Lemma writes_inv t v comps cs :
     writes tgt t v comps = true -> unparse_rec tgt noexc t v comps = Ok cs -> cs <> [].
@@ -803,10 +817,10 @@ Section Induction.
   Lemma child_leaf t v comps cs :
     is_basic_ty t || tgt comps = true ->
     dom tgt t v comps = true -> unparse_rec tgt noexc t v comps = Ok cs ->
-    puts t cs ONone = Ok (enc t v).
+    puts t cs ONone = Ok (enc t v) /\ names_ok cs.
   Proof.
     intros Hl Hd Hu. rewrite unparse_rec_unfold, Hl in Hu. apply bind_ok_inv in Hu as (s & Hs & Hu).
-    injection Hu as <-. unfold puts. cbn [foldM fst snd put].
+    injection Hu as <-. split; [|repeat constructor]. unfold puts. cbn [foldM fst snd put].
     rewrite (leaf_ok t v s ONone); [reflexivity| |exact Hs].
     rewrite dom_unfold in Hd. destruct (is_basic_ty t); [exact Hd|]. cbn [orb] in Hl. rewrite Hl in Hd. exact Hd.
   Qed.
@@ -816,21 +830,22 @@ Section Induction.
     mapRi (fun i e => let c := print_nat (S i) in
                       rmap (prefix_cols c) (unparse_rec tgt noexc t' e (comps ++ [c]))) i l = Ok gs ->
     fill (TList t') (concat gs) (OList l0) = Ok (OList (l0 ++ map (enc t') l))
-    /\ Forall paths_nonempty gs /\ (l <> [] -> concat gs <> []).
+    /\ Forall paths_nonempty gs /\ Forall names_ok gs.
   Proof.
     intros IHt. induction l as [|e r IH]; intros i l0 gs Hl Hd Hg.
-    - injection Hg as <-. cbn [concat map]. rewrite app_nil_r. repeat split; [constructor|congruence].
+    - injection Hg as <-. cbn [concat map]. rewrite app_nil_r. repeat split; constructor.
     - apply mapRi_ok_inv in Hg as (y & yr & Hy & Hyr & ->). cbn zeta in Hy.
       apply rmap_ok_inv in Hy as (cs & Hcs & ->).
       cbn [dom_elems] in Hd. cbn zeta in Hd. apply andb_true_iff in Hd as [Hd Hd3]. apply andb_true_iff in Hd as [Hw Hd2].
       pose proof (writes_inv _ _ _ _ Hw Hcs) as Hne.
       destruct (IH (S i) (l0 ++ [enc t' e]) yr) as (F1 & F2 & F3);
         [rewrite app_length; cbn [length]; lia|exact Hd3|exact Hyr|].
+      destruct (IHt e _ cs Hd2 Hcs Hne) as [Hput Hnm].
       cbn [concat]. split; [|split].
       + rewrite fill_app, (fill_list_group (TList t') cs l0 i eq_refl Hl Hne). cbn [child_ty].
-        rewrite (IHt e _ cs Hd2 Hcs Hne). cbn [bind]. rewrite F1, <- app_assoc. reflexivity.
+        rewrite Hput. cbn [bind]. rewrite F1, <- app_assoc. reflexivity.
       + constructor; [apply paths_nonempty_prefix|exact F2].
-      + intros _. destruct cs as [|c0 cr]; [congruence|]. discriminate.
+      + constructor; [apply names_ok_prefix; [apply print_nat_name_ok|exact Hnm]|exact F3].
   Qed.
 
   Lemma fill_ulist_elems comps : forall l i l0 gs,
@@ -839,10 +854,10 @@ Section Induction.
     mapRi (fun i e => let c := print_nat (S i) in
                       rmap (prefix_cols c) (unparse_u tgt noexc e (comps ++ [c]))) i l = Ok gs ->
     fill TUList (concat gs) (OList l0) = Ok (OList (l0 ++ map enc_u l))
-    /\ Forall paths_nonempty gs /\ (l <> [] -> concat gs <> []).
+    /\ Forall paths_nonempty gs /\ Forall names_ok gs.
   Proof.
     induction l as [|e r IH]; intros i l0 gs Hl Hd Hg.
-    - injection Hg as <-. cbn [concat map]. rewrite app_nil_r. repeat split; [constructor|congruence].
+    - injection Hg as <-. cbn [concat map]. rewrite app_nil_r. repeat split; constructor.
     - apply mapRi_ok_inv in Hg as (y & yr & Hy & Hyr & ->). cbn zeta in Hy.
       cbn [forallb] in Hd. apply andb_true_iff in Hd as [Hs Hd3].
       destruct e as [s| | | | |]; try discriminate.
@@ -855,7 +870,7 @@ Section Induction.
         unfold puts. cbn [foldM fst snd put]. unfold leaf_assign, leaf_value. cbn [is_list_ty is_model_ty orb assign_value bind].
         rewrite (trimmedb_strip s Hs). rewrite F1, <- app_assoc. reflexivity.
       + constructor; [apply (paths_nonempty_prefix (print_nat (S i)) [([], s)])|exact F2].
-      + intros _. discriminate.
+      + constructor; [|exact F3]. apply (names_ok_prefix (print_nat (S i)) [([], s)]); [apply print_nat_name_ok|repeat constructor].
   Qed.
 
   Lemma fill_model_fields fields h2f f2h comps :
@@ -867,11 +882,11 @@ Section Induction.
     dom_fields tgt h2f f2h comps fds fs = true ->
     unparse_fields tgt f2h comps fds fs = Ok gs ->
     fill (TModel fields h2f f2h) (concat gs) (ODict d0) = Ok (ODict (d0 ++ enc_fields fds fs))
-    /\ Forall paths_nonempty gs.
+    /\ Forall paths_nonempty gs /\ Forall names_ok gs.
   Proof.
     intros Hnd. induction 1 as [|[n [tf d]] r IHf _ IH]; intros [|[n' v'] fs'] d0 gs Hsub Hnd2 Hfresh Hd Hu;
       cbn [dom_fields unparse_fields] in *; try discriminate.
-    - injection Hu as <-. cbn [concat enc_fields]. rewrite app_nil_r. split; [reflexivity|constructor].
+    - injection Hu as <-. cbn [concat enc_fields]. rewrite app_nil_r. repeat split; constructor.
     - apply andb_true_iff in Hd as [Hd Hd3]. apply andb_true_iff in Hd as [Hn Hd2].
       rewrite Hn in Hu. cbn [negb] in Hu. cbn [map f_name fst] in Hnd2. inversion Hnd2 as [|? ? Hnot Hnd3]; subst.
       assert (Hsub' : forall f, In f r -> In f fields) by (intros f Hf; apply Hsub; right; exact Hf).
@@ -885,20 +900,21 @@ Section Induction.
           by (rewrite Hk; apply (field_lookup_in (fun tf0 _ => tf0) fields n tf d Hnd Hin)).
         assert (Hfn : dget d0 n = None) by (apply (Hfresh (n, (tf, d))); left; reflexivity).
         (* the columns of this field, whichever way they were written *)
-        assert (Hgrp : exists cs, here = prefix_cols h cs /\ cs <> [] /\ puts tf cs ONone = Ok (enc tf v')).
+        assert (Hgrp : exists cs, here = prefix_cols h cs /\ cs <> [] /\ puts tf cs ONone = Ok (enc tf v') /\ names_ok cs).
         { cbn [f_ty fst snd] in IHf. destruct (str_eqb n h) eqn:Enh.
           - apply andb_true_iff in Hc as [Hw Hdm]. apply rmap_ok_inv in Hhere as (cs & Hcs & ->).
             exists cs. pose proof (writes_inv _ _ _ _ Hw Hcs) as Hne.
-            repeat split; [exact Hne|apply (IHf v' _ cs Hdm Hcs Hne)].
+            destruct (IHf v' _ cs Hdm Hcs Hne) as [Hput Hnm]. repeat split; assumption.
           - cbn [noexc] in Hhere. apply bind_ok_inv in Hhere as (s & Hs & Hhere). injection Hhere as <-.
-            exists [([], s)]. repeat split; [discriminate|].
+            exists [([], s)]. repeat split; [discriminate| |repeat constructor].
             unfold puts. cbn [foldM fst snd put]. rewrite (leaf_ok tf v' s ONone Hc Hs). reflexivity. }
-        destruct Hgrp as (cs & -> & Hne & Hputs).
-        destruct (IH fs' (d0 ++ [(n, enc tf v')]) rr Hsub' Hnd3) as (F1 & F2); [|exact Hd3|exact Hr|].
+        destruct Hgrp as (cs & -> & Hne & Hputs & Hnm).
+        destruct (IH fs' (d0 ++ [(n, enc tf v')]) rr Hsub' Hnd3) as (F1 & F2 & F3); [|exact Hd3|exact Hr|].
         { intros f Hf. rewrite dget_app_none by (apply Hfresh; right; exact Hf).
           unfold dget. cbn [oget]. destruct (str_eqb n (f_name f)) eqn:E; [|reflexivity].
           apply str_eqb_eq in E. exfalso. apply Hnot. rewrite E. apply in_map. exact Hf. }
-        cbn [concat]. split; [|constructor; [apply paths_nonempty_prefix|exact F2]].
+        cbn [concat]. split; [|split; [constructor; [apply paths_nonempty_prefix|exact F2]
+                                      |constructor; [apply names_ok_prefix; assumption|exact F3]]].
         rewrite fill_app, (fill_model_group fields h2f f2h h tf cs d0 Hlk Hne).
         rewrite Hk, Hfn, Hputs. cbn [bind]. rewrite (dset_absent d0 n _ Hfn), F1, <- app_assoc. reflexivity.
   Qed.
@@ -912,12 +928,14 @@ Section Induction.
       rewrite unparse_rec_unfold in Hu. rewrite dom_unfold in Hd. cbn [is_basic_ty orb] in Hu, Hd. rewrite Et in Hu, Hd.
       destruct v as [| | | |l|]; try discriminate. apply rmap_ok_inv in Hu as (gs & Hgs & ->).
       destruct (fill_ulist_elems comps l O [] gs eq_refl Hd Hgs) as (F1 & F2 & F3).
+      split; [|apply names_ok_concat, F3].
       rewrite puts_fresh_list; [exact F1|reflexivity|apply paths_nonempty_concat, F2|exact Hne].
     - (* typed list *)
       destruct (tgt comps) eqn:Et; [apply (child_leaf _ v comps cs); [cbn; rewrite Et; reflexivity|exact Hd|exact Hu]|].
       rewrite unparse_rec_unfold in Hu. rewrite dom_unfold in Hd. cbn [is_basic_ty orb] in Hu, Hd. rewrite Et in Hu, Hd.
       destruct v as [| | | |l|]; try discriminate. apply rmap_ok_inv in Hu as (gs & Hgs & ->).
       destruct (fill_list_elems t' comps IH l O [] gs eq_refl Hd Hgs) as (F1 & F2 & F3).
+      split; [|apply names_ok_concat, F3].
       rewrite puts_fresh_list; [exact F1|reflexivity|apply paths_nonempty_concat, F2|exact Hne].
     - (* model *)
       destruct (tgt comps) eqn:Et; [apply (child_leaf _ v comps cs); [cbn; rewrite Et; reflexivity|exact Hd|exact Hu]|].
@@ -925,7 +943,8 @@ Section Induction.
       destruct v as [| | | | |fs]; try discriminate. apply rmap_ok_inv in Hu as (gs & Hgs & ->).
       apply andb_true_iff in Hd as [Hnd Hd]. apply nodup_str_NoDup in Hnd.
       destruct (fill_model_fields fields h2f f2h comps Hnd fields IH fs [] gs (fun f H => H) Hnd (fun f _ => eq_refl) Hd Hgs)
-        as (F1 & F2).
+        as (F1 & F2 & F3).
+      split; [|apply names_ok_concat, F3].
       rewrite puts_fresh_model; [rewrite enc_model; exact F1|reflexivity|apply paths_nonempty_concat, F2|exact Hne].
   Qed.
 End Induction.
